@@ -24,6 +24,8 @@ def setup(wd):
             shutil.copy("/bin/true", p)
         os.chmod(p, 0o755)
     XSH.env["PATH"] = [bindir]
+    XSH.env["VERIFVAR"] = "expanded value"
+    XSH.env["EXPAND_ENV_VARS"] = True
     return {"XSH": XSH, "bindir": bindir}
 
 
@@ -58,6 +60,7 @@ def run(ctx, scn):
     from xonsh.procs.specs import DecoratorAlias, SpecAttrDecoratorAlias, SubprocSpec
 
     XSH = ctx["XSH"]
+    home = os.path.expanduser("~")
     aliases = Aliases()
     saved = XSH.commands_cache.aliases
     XSH.commands_cache.aliases = aliases
@@ -96,7 +99,7 @@ def run(ctx, scn):
                         if callable(x):
                             out.append("<fn:%s>" % names.get(id(x), "?"))
                         else:
-                            out.append(str(x))
+                            out.append(str(x).replace(home, "<HOME>").replace("expanded value", "<VAR>"))
                     return out
 
                 t0 = time.time()
@@ -116,11 +119,11 @@ def run(ctx, scn):
                 try:
                     spec = SubprocSpec.build(list(line))
                     if callable(spec.alias):
-                        sout = ["<fn:%s>" % names.get(id(spec.alias), "?")] + [str(x) for x in spec.cmd]
+                        sout = ["<fn:%s>" % names.get(id(spec.alias), "?")] + norm(spec.cmd)
                     elif spec.alias is None:
-                        sout = ["<noalias>"] + [str(x) for x in spec.cmd]
+                        sout = ["<noalias>"] + norm(spec.cmd)
                     else:
-                        sout = [str(x) for x in spec.cmd]
+                        sout = norm(spec.cmd)
                     sdecs = [getattr(d, "name", "?") for d in (spec.decorators or [])] if hasattr(spec, "decorators") else None
                     obs["spec_out"] = sout
                     obs["spec_decs"] = sdecs
